@@ -46,6 +46,8 @@ var apiTexts = map[string]string{
 	"heir":     "{ // {allOf: \"@typeObj\"}\n  \"hk\": 1\n}",
 	"typeObj":  "{\n  \"ok\": 1\n}",
 	"usesHeir": `{"r": @heir}`,
+	// keys that have to be escaped when they are written out again
+	"esckeys": `{"a\"b": 1, "c\\d": {"e\nf": [true, {"\u2028": null}]}, "t\tab": "v", "\u0001": 2}`,
 	// a root that is nothing but a reference to an object type / a choice between an object type and a string type
 	"rootRef":    `@typeObj`,
 	"rootChoice": `@typeObj | @t`,
